@@ -439,6 +439,7 @@ func checkC16(w *World, r *Report) {
 	r.Explanation += " Rules added in later rounds: (R16.1c) compiled templates are written only by constructor/deserialiser; (R16.8) name → file is injective; (R16.9) a loaded tree is the parse of the stored source. (R16.10) Template.Compile builds from the receiver's own source. (R16.11) the reader does not judge the content of decoded strings."
 	r.Explanation += " Round 9: (R16.12) every constructor of a Template sets the fields its siblings derive from the tree."
 	r.Explanation += " Round 10: (R16.13) no size class selects a different writer or reader."
+	r.Explanation += " Round 14: (R16.14) rendering does not branch on where a template came from."
 	r.RuleText = "obligation = one pair of wire operations / one field / one narrowing / one length prefix / one gob registration / one path expression; non-trivial = pairs and dominance checks"
 	r.Trusted = []string{"encoding/binary fixed-size encoding is its own inverse for equal type and byte order", "io.ReadFull reads exactly len(buf) bytes"}
 
